@@ -96,9 +96,9 @@ def obligations(tier):
                 else:
                     d["y"] = S.input("y", [ns_])
                 return d
-            def call(I):
+            def call(I, tol_kw={}):
                 S = I["_S"]
-                est = cpr.CPRegressor(weight_rank=R if S.name == "sym" else I["W"][0].shape[1], verbose=0)
+                est = cpr.CPRegressor(weight_rank=R if S.name == "sym" else I["W"][0].shape[1], verbose=0, **tol_kw)
                 nw = [G.opaque_tensor("NW", []), G.opaque_tensor("NW", [])] if S.name == "sym" else [1.0, 2.0]
                 est, kind = run_fit(cpr.CPRegressor, est, I, dict(W=list(I["W"]), norm_W=nw), 3)
                 return dict(wt=est.weight_tensor_, cp=est.cp_weight_, vec=est.vec_W_, kind=kind, pred=est.predict(I["X"]))
@@ -114,13 +114,16 @@ def obligations(tier):
                 return out
             add("cp_regression:CPRegressor.fit", f"X-order={N + 1},{'vector' if vec else 'scalar'} target", setup, call, post, dict(x_order=N + 1, target="vector" if vec else "scalar"),
                 "exposed weight tensor ≡ reconstruction of exposed factors ≡ what predict uses (all loop exits)")
+            # tol = 0 means 'run exactly n_iter_max sweeps': the convergence bookkeeping may be skipped, the exposed weights must still be those of the last sweep
+            add("cp_regression:CPRegressor.fit", f"X-order={N + 1},{'vector' if vec else 'scalar'} target,tol=0", setup, lambda I, call=call: call(I, dict(tol=0)), post,
+                dict(x_order=N + 1, target="vector" if vec else "scalar", tol=0), "exposed weight tensor ≡ reconstruction of exposed factors ≡ what predict uses (all loop exits)")
         def setup_t(S, N=N):
             n, r = dims(N), dims(N, "r")
             return dict(_S=S, X=S.input("X", [ns_] + n), y=S.input("y", [ns_]), W=[S.input(f"W{k}", [n[k], r[k]]) for k in range(N)], Gc=S.input("Gc", r), r=r)
-        def call_t(I):
+        def call_t(I, tol_kw={}):
             S = I["_S"]
             ranks = list(I["r"]) if S.name == "sym" else [w.shape[1] for w in I["W"]]
-            est = tkr.TuckerRegressor(weight_ranks=ranks, verbose=0)
+            est = tkr.TuckerRegressor(weight_ranks=ranks, verbose=0, **tol_kw)
             nw = [G.opaque_tensor("NW", []), G.opaque_tensor("NW", [])] if S.name == "sym" else [1.0, 2.0]
             est, kind = run_fit(tkr.TuckerRegressor, est, I, dict(W=list(I["W"]), G=I["Gc"], norm_W=nw), 3)
             return dict(wt=est.weight_tensor_, tk=est.tucker_weight_, vec=est.vec_W_, kind=kind, pred=est.predict(I["X"]))
@@ -132,6 +135,8 @@ def obligations(tier):
                     (f"[{r['kind']}] vec_W_ ≡ vec(weight_tensor_)", r["vec"], S.group(dense, [list(range(N))])),
                     (f"[{r['kind']}] predict(X) ≡ <X_s, reconstruction of the exposed factors>", r["pred"], S.einsum(f"a{lx},{lx}->a", I["X"], dense))]
         add("tucker_regression:TuckerRegressor.fit", f"X-order={N + 1}", setup_t, call_t, post_t, dict(x_order=N + 1),
+            "exposed weight tensor ≡ reconstruction of exposed factors ≡ what predict uses (all loop exits)")
+        add("tucker_regression:TuckerRegressor.fit", f"X-order={N + 1},tol=0", setup_t, lambda I, call_t=call_t: call_t(I, dict(tol=0)), post_t, dict(x_order=N + 1, tol=0),
             "exposed weight tensor ≡ reconstruction of exposed factors ≡ what predict uses (all loop exits)")
     # ---------------------------------------------------------------------- CP_PLSR
     for N in (1, 2) + ((3,) if tier == "thorough" else ()):
